@@ -58,7 +58,7 @@ func cmdFuncs(args []string) {
 		if !eng.inRepo(fn) || !rx.MatchString(n) {
 			continue
 		}
-		if !*noContract && eng.contractFor(fn) == nil {
+		if !*noContract && eng.contractForCtx(fn, *ctx) == nil {
 			continue
 		}
 		names = append(names, n)
